@@ -16,7 +16,7 @@ BOUNDS = {"quick": "LV(4,3) x {bool,int8,int64,uint8,uint64,float64} x 3 pattern
                    "sort (method), unique, unique+counts, diff n=0..4}; operand unchanged",
           "thorough": "LV(5,3) u LV(3,5), plus int16/int32/float32, diff n=0..6"}
 DT_Q = ["bool", "int8", "int64", "uint8", "uint64", "float64"]
-OPS = ["cumsum_m", "cumsum_f", "add.acc", "sub.acc", "xor.acc", "sort_m", "unique", "unique_c"]
+OPS = ["cumsum_m", "cumsum_f", "add.acc", "sub.acc", "xor.acc", "sort_m", "sort_default", "unique", "unique_c", "diff_default"]
 
 
 def shards(tier):
@@ -83,6 +83,12 @@ def check(case, acc):
     elif op == "sort_m":
         ref = lambda r: np.sort(r)
         call = lambda: ra.sort(axis=-1)
+    elif op == "sort_default":
+        ref = lambda r: np.sort(r)
+        call = lambda: ra.sort()
+    elif op == "diff_default":
+        ref = lambda r: np.diff(r)
+        call = lambda: np.diff(ra, axis=-1)
     elif op == "unique":
         ref = lambda r: np.unique(r)
         call = lambda: np.unique(ra, axis=-1)
